@@ -524,10 +524,8 @@ impl Allocator for Arena {
             let offset = offset as u32;
             offset.max(data_offset).min(cap)
           }
-        } else if offset < 0 {
-          data_offset
         } else {
-          return;
+          data_offset
         }
       }
       ArenaPosition::End(offset) => match cap.checked_sub(offset) {
